@@ -18,7 +18,7 @@ ASSUMPTIONS = [
     "text-file instance order follows os.listdir and is not part of the property: read instances are matched to written ones by content",
     "checkpoints are written to a scratch directory that is removed afterwards; training uses 8 instances, 1 epoch, CPU, fp32",
 ]
-REQUIRED_COUNTERS = ["c19_npz_dtype_cases", "c19_default_path_files", "c19_mdpp_files", "c19_capacity_override_files", "c19_op_prize_rule_checks", "c19_npz_roundtrips", "c19_datafile_loads", "c19_datafile_rows", "c19_sched_file_sets", "c19_env_copies", "c19_behaviour_checks", "c19_checkpoints", "c19_policy_rows", "c19_baseline_checks", "c19_multifile_checks", "c19_merged_capacity_files", "c19_sched_rereads", "c19_dataset_from_file_loads"]
+REQUIRED_COUNTERS = ["c19_generated_file_comparisons", "c19_phase_decode_checks", "c19_npz_dtype_cases", "c19_default_path_files", "c19_mdpp_files", "c19_capacity_override_files", "c19_op_prize_rule_checks", "c19_npz_roundtrips", "c19_datafile_loads", "c19_datafile_rows", "c19_sched_file_sets", "c19_env_copies", "c19_behaviour_checks", "c19_checkpoints", "c19_policy_rows", "c19_baseline_checks", "c19_multifile_checks", "c19_merged_capacity_files", "c19_sched_rereads", "c19_dataset_from_file_loads"]
 MIN_NONTRIVIAL = {"quick": 150, "thorough": 1000}
 WORKERS = {"quick": 14, "thorough": 16}
 BUDGET_S = {"quick": 500, "thorough": 3000}
@@ -54,6 +54,9 @@ def cases(tier, seed):
                 out.append(dict(kind="datafile", problem=prob, n=n, N=rnd.choice([5, 8]), s=rnd.randrange(10**6), default_path=rnd.choice(["val", "test"])))
     for r in range(reps):
         out.append(dict(kind="datafile", problem="mdpp", n=10, N=rnd.choice([4, 6]), s=rnd.randrange(10**6)))
+    for prob in ("tsp", "vrp", "pdp", "pctsp", "atsp"):
+        for r in range(max(1, reps // 2)):
+            out.append(dict(kind="gen_determinism", problem=prob, sizes=rnd.choice([[20, 50], [50, 20, 100], [20, 100]]), N=rnd.choice([3, 5]), s=rnd.randrange(10**4)))
     for cfg in [c for c in envzoo.sched_configs("quick") if c["env"] in ("fjsp", "jssp") and (c["env"] == "fjsp" or c.get("one2one") is False or c.get("one2one"))]:
         for r in range(reps * 2):
             out.append(dict(kind="schedfile", cfg=cfg, B=rnd.choice([1, 3, 5]), s=rnd.randrange(10**6)))
@@ -72,7 +75,7 @@ def cases(tier, seed):
 def run_case(ctx, case):
     from vlib import c19impl as m
 
-    {"multifile": m.multifile_case, "npz": m.npz_case, "datafile": m.datafile_case, "schedfile": m.schedfile_case, "envcopy": m.envcopy_case, "checkpoint": m.checkpoint_case}[case["kind"]](ctx, case)
+    {"multifile": m.multifile_case, "npz": m.npz_case, "datafile": m.datafile_case, "schedfile": m.schedfile_case, "envcopy": m.envcopy_case, "checkpoint": m.checkpoint_case, "gen_determinism": m.gen_determinism_case}[case["kind"]](ctx, case)
 
 
 MANIFEST = {
